@@ -837,6 +837,22 @@ class MeshRegion:
         self.dx.centre = (self.psi_vals[2::2] - self.psi_vals[:-2:2])[:, numpy.newaxis]
         self.dx.ylow = (self.psi_vals[2::2] - self.psi_vals[:-2:2])[:, numpy.newaxis]
 
+        # dx at the x-faces is the psi difference between the neighbouring cell centres.
+        # At a radial boundary of the grid use twice the distance from the face to the
+        # cell centre, consistent with the one-sided differences in DDX().
+        dx_xlow = numpy.zeros(self.nx + 1)
+        dx_xlow[1:-1] = self.psi_vals[3::2] - self.psi_vals[1:-2:2]
+        if self.connections["inner"] is not None:
+            dx_xlow[0] = self.psi_vals[1] - self.getNeighbour("inner").psi_vals[-2]
+        else:
+            dx_xlow[0] = 2.0 * (self.psi_vals[1] - self.psi_vals[0])
+        if self.connections["outer"] is not None:
+            dx_xlow[-1] = self.getNeighbour("outer").psi_vals[1] - self.psi_vals[-2]
+        else:
+            dx_xlow[-1] = 2.0 * (self.psi_vals[-1] - self.psi_vals[-2])
+        self.dx.xlow = dx_xlow[:, numpy.newaxis]
+        self.dx.corners = dx_xlow[:, numpy.newaxis]
+
         if self.psi_vals[0] > self.psi_vals[-1]:
             # x-coordinate is -psixy so x always increases radially across grid
             self.bpsign = -1.0
